@@ -221,6 +221,7 @@ def WF : Op → Prop
   | .readLimUint n => n < 2 ^ 64
   | .writeBigUint v _ => 0 ≤ v                                          -- unsigned
   | .writeBigInt v n => n ≥ 1 ∧ -(2 : Int) ^ (n - 1) ≤ v ∧ v < (2 : Int) ^ (n - 1)   -- representable
+  | .writeUnary n => n < 2 ^ 63                                        -- `int(n)` does not wrap (a uint ≥ 2^63 writes no ones)
   | .writeBitString src => src.len ≤ 8 * src.buf.length                 -- the source holds its bits
   | .append src => src.len ≤ 8 * src.buf.length
   | _ => True
@@ -234,7 +235,8 @@ instance : (op : Op) → Decidable op.WF
   | .writeBigInt _ _ => by unfold WF; exact inferInstance
   | .writeBitString _ => by unfold WF; exact inferInstance
   | .append _ => by unfold WF; exact inferInstance
-  | .writeBit _ | .writeBitArray _ | .writeByte _ | .writeBytes _ | .writeUnary _ | .readBit | .skip _ | .readUint _
+  | .writeUnary _ => by unfold WF; exact inferInstance
+  | .writeBit _ | .writeBitArray _ | .writeByte _ | .writeBytes _ | .readBit | .skip _ | .readUint _
   | .pickUint _ | .readInt _ | .readByte | .readBytes _ | .readBits _ | .readRemainingBits | .readBigUint _
   | .readBigInt _ | .readUnary | .resetCounter | .grow _ | .copy => by unfold WF; exact inferInstance
 
